@@ -1,6 +1,6 @@
 (* C14 -- redo-ifcreate and redo-always dependencies (local theorems). *)
-From Coq Require Import ZArith.
-From Redo Require Import Base.Bytes Build.Model Build.LocalProofs.
+From Coq Require Import ZArith List.
+From Redo Require Import Base.Bytes Build.Model Build.LocalProofs Build.FailProofs.
 
 (* declaring redo-ifcreate for an existing path is an error and records nothing *)
 Theorem C14_ifcreate_existing_errors : forall t ns w,
@@ -42,6 +42,33 @@ Check C14_newer_dep_is_dirty : forall fuel runid w c f r mx seen chg,
   r_changed r = Some chg -> (mx < chg)%Z ->
   is_dirty (S fuel) runid w c f r mx seen = Ret (VDirty, w, c, []).
 Print Assumptions C14_newer_dep_is_dirty.
+
+(* the two rules over the whole walk: a target with a recorded redo-ifcreate edge
+   to a path that exists now, or with a recorded edge to //ALWAYS, is never
+   found clean by a run that has not dealt with it yet -- whatever else is in
+   its dependency list, whatever the other rows say, for every fuel *)
+Theorem C14_ifcreate_or_always_not_clean : forall fuel runid w c f r mx seen v w' c' evs chg,
+  (0 < runid)%Z ->
+  is_dirty fuel runid w c f r mx seen = Ret (v, w', c', evs) ->
+  chk_is_checked c runid r f = false ->
+  r_changed r = Some chg -> (chg < runid)%Z ->
+  (match r_checked r with Some k => k | None => 0 end < runid)%Z ->
+  (exists d, In d (deps_of (dbs w) r f) /\
+     ((d_mode d = DCreated /\ exists_b w (r_name (get_row (dbs w) (d_source d))) = true)
+      \/ (d_mode d = DModified /\ r_name (get_row (dbs w) (d_source d)) = always_name))) ->
+  v <> VClean.
+Proof. exact ifcreate_or_always_not_clean. Qed.
+Check C14_ifcreate_or_always_not_clean : forall fuel runid w c f r mx seen v w' c' evs chg,
+  (0 < runid)%Z ->
+  is_dirty fuel runid w c f r mx seen = Ret (v, w', c', evs) ->
+  chk_is_checked c runid r f = false ->
+  r_changed r = Some chg -> (chg < runid)%Z ->
+  (match r_checked r with Some k => k | None => 0 end < runid)%Z ->
+  (exists d, In d (deps_of (dbs w) r f) /\
+     ((d_mode d = DCreated /\ exists_b w (r_name (get_row (dbs w) (d_source d))) = true)
+      \/ (d_mode d = DModified /\ r_name (get_row (dbs w) (d_source d)) = always_name))) ->
+  v <> VClean.
+Print Assumptions C14_ifcreate_or_always_not_clean.
 
 (* non-vacuity: an always target runs in every run, once per run for two
    dependents; an ifcreate target runs after the watched file appears, not before
